@@ -147,11 +147,14 @@ def observe(expr):
         c, lj = build(expr)
     except (AssertionError, ValueError, RuntimeError, TypeError) as e:
         return {"err": type(e).__name__, "msg": str(e)[:200]}
-    u = np.array(c.compute_unitary(), dtype=complex)
-    # evaluating is an observation: asking again must give the same matrix and must not disturb the parts
-    again = [np.array(c.compute_unitary(), dtype=complex) for _ in range(2)]
-    u_last = again[-1]
-    flat = [[r[0], len(r)] for r, _ in c]
+    try:
+        u = np.array(c.compute_unitary(), dtype=complex)
+        # evaluating is an observation: asking again must give the same matrix and must not disturb the parts
+        again = [np.array(c.compute_unitary(), dtype=complex) for _ in range(2)]
+        u_last = again[-1]
+        flat = [[r[0], len(r)] for r, _ in c]
+    except Exception as e:      # an exception of the real code on an accepted program is a finding, not a harness crash
+        return {"raises": f"{type(e).__name__}: {str(e)[:150]}", "lean": lj}
     out = {"U": u_last, "U_first": u, "flat": flat, "lean": lj, "m": c.m}
     if expr.get("symbolic"):
         # the symbolic computation (what `.U` reports) evaluated numerically must be the same matrix
@@ -225,6 +228,9 @@ def judge(chk, expr, lean_reply=None):
         return ("violation", "rejects-admissible-program",
                 f"the real API raised {obs['err']} ({obs['msg']}) on a program whose ranges are all admissible",
                 {"program": expr})
+    if "raises" in obs:
+        return ("violation", "evaluation-raises",
+                f"compute_unitary()/iteration of an accepted construction program raised {obs['raises']}", {"program": expr})
     if not np.allclose(obs["U_first"], obs["U"], rtol=core.TOL, atol=core.TOL):
         return ("violation", "matrix-changes-on-reevaluation",
                 f"compute_unitary() called again on the same circuit returns a different matrix (max diff "
@@ -338,6 +344,7 @@ def gen_pool_history(rng, n_ops, max_m, malformed=False):
     nvar = rng.choice([0, 1, 2, 3])
     ops = []
     cells = {}          # label -> (m, rank)
+    known = {}          # label -> variables bound by leaves added directly to that entry
     nxt = [0]
 
     def new_cell(m=None, rank=None):
@@ -371,7 +378,11 @@ def gen_pool_history(rng, n_ops, max_m, malformed=False):
             new_cell()
         elif r < 0.42 and nvar:
             vs = rng.sample(range(nvar), rng.randint(1, nvar))
-            ops.append({"op": "set", "vals": {str(v): gen_value(rng) for v in vs}})
+            via = None
+            if known.get(i) and rng.random() < 0.6:      # values given through compute_unitary(assign=...) of a circuit
+                via = i                                  # that registered these variables when the leaves were added
+                vs = rng.sample(sorted(known[i]), rng.randint(1, len(known[i])))
+            ops.append({"op": "set", "vals": {str(v): gen_value(rng) for v in vs}, "via": via, "h": h})
         elif r < 0.47:
             ops.append({"op": "barrier", "i": i, "h": h})
         else:
@@ -388,6 +399,8 @@ def gen_pool_history(rng, n_ops, max_m, malformed=False):
                 if leaf["t"] in ANGLES and nvar and rng.random() < 0.6:
                     names = ANGLES[leaf["t"]]
                     leaf["bind"] = {a: rng.randrange(nvar) for a in rng.sample(names, rng.randint(1, len(names)))}
+                    if not bad:
+                        known.setdefault(i, set()).update(leaf["bind"].values())
                 w = gens.leaf_width(leaf)
                 off = (m_i - w + rng.randint(1, 2)) if bad else rng.randint(0, m_i - w)
                 ops.append({"op": "leaf", "i": i, "off": off, "leaf": leaf, "h": h,
@@ -579,9 +592,26 @@ def run_pool_history(chk, hist, count=True):
             continue
         if k == "set":
             env += 1
-            for v, x in op["vals"].items():
-                if int(v) < len(params):
-                    params[int(v)].set_value(x)
+            todo = {params[int(v)].name: x for v, x in op["vals"].items() if int(v) < len(params)}
+            via = None
+            if op.get("via") in idx:
+                hs = handles[idx[op["via"]]]
+                via = hs[op.get("h", 0) % len(hs)]
+                if not set(todo) <= {p.name for p in via.get_parameters()}:
+                    via = None
+            if via is not None:
+                # the other public way to give values: compute_unitary(assign={name: value}) on a circuit that knows them
+                try:
+                    via.compute_unitary(assign=dict(todo))
+                except Exception as e:
+                    return ("violation", "evaluation-raises-after-history",
+                            f"operation #{step}: compute_unitary(assign=...) raised {type(e).__name__}: {str(e)[:120]}", where)
+                if count:
+                    chk.branch("hist-set-through-assign")
+            else:
+                for p in params:
+                    if p.name in todo:
+                        p.set_value(todo[p.name])
             lean_ops.append({"set": env})
             expect.append((step, "ok", None))
             if count:
@@ -673,6 +703,8 @@ def run_pool_history(chk, hist, count=True):
                 pool[i][1].append((0, ("tree", ("L", np.eye(m_i, dtype=complex), "Barrier"))))
             if res is not None:
                 pool[i][1].extend(new_items)
+                if k == "sub" and merge_like:
+                    taint[i] |= reasons(j)      # spliced items: what was said about the child now holds for the parent
                 if how in ("fd", "mm"):
                     hs.append(res)       # `//` and `@` return a second handle on the same component list
                     if count:
@@ -978,6 +1010,7 @@ def run(chk: core.Check):
                              "hist-nest-by-reference", "hist-merge", "hist-reevaluated-after-growth", "hist-copy",
                              "hist-set-value", "hist-bound-leaf", "hist-shallow-handle", "hist-matmul",
                              "hist-eval-through-shallow-handle", "hist-symbolic-substituted", "hist-rejected",
+                             "hist-set-through-assign",
                              "symbolic", "param-value-changed-after-assembly", "param-matmul", "param-symbolic-substituted"] + \
                             ["symbolic-leaf-" + t for t in ("BS", "PS", "PERM", "U", "UH", "Barrier")]
     chk.lean = core.LeanDriver("C01")
@@ -987,8 +1020,11 @@ def run(chk: core.Check):
     max_depth = chk.pick(3, 5)
     max_ops = chk.pick(10, 24)
     # corpus first
-    for expr in load_corpus():
-        handle(chk, expr)
+    for entry in load_corpus():
+        if "pool_history" in entry:
+            handle_history(chk, entry["pool_history"])
+        else:
+            handle(chk, entry["program"])
     batch = []
     for i in range(n):
         m = rng.randint(1, max_m)
@@ -1061,7 +1097,7 @@ def load_corpus():
     import os
     out = []
     for p in sorted(glob.glob(os.path.join(core.VERIF, "corpus", "C01", "*.json"))):
-        out.append(json.load(open(p))["program"])
+        out.append(json.load(open(p)))
     return out
 
 
